@@ -189,6 +189,36 @@ func runC07(c *report.Ctx) {
 	httpReach := reachableFrom(c, http...)
 	usedJust := map[string]bool{}
 	seenKeys := map[string]bool{}
+	// the wording of a message is not part of a site's identity when the function has a single site of that kind
+	perFn := map[string]int{}
+	for _, s := range sites {
+		perFn[stripAnon(an.FuncName(s.Fn))+"/"+s.Kind]++
+	}
+	lookupSite := func(tab map[string]siteJust, k string) (siteJust, bool) {
+		if j, ok := lookupSite(tab, k); ok {
+			return j, true
+		}
+		for _, sep := range []string{"/log.Panic/", "/log.Fatal/", "/panic/", "/os.Exit/"} {
+			i := strings.Index(k, sep)
+			if i < 0 {
+				continue
+			}
+			pre := stripAnon(k[:i]) + sep[:len(sep)-1]
+			if perFn[pre] != 1 {
+				break
+			}
+			var hit []siteJust
+			for tk, j := range tab {
+				if ti := strings.Index(tk, sep); ti >= 0 && stripAnon(tk[:ti])+sep[:len(sep)-1] == pre {
+					hit = append(hit, j)
+				}
+			}
+			if len(hit) == 1 {
+				return hit[0], true
+			}
+		}
+		return siteJust{}, false
+	}
 	for _, s := range sites {
 		k := siteKeyNoMsg(s)
 		if bgReach[s.Fn] {
@@ -859,7 +889,7 @@ func checkManualLockRegions(c *report.Ctx, sites []panicSite) {
 		ops := an.LockOps(f)
 		manual := map[string]bool{}
 		for _, o := range ops {
-			if !o.Acquire && !o.Deferred {
+			if !o.Acquire && !o.Deferred && !an.DeferOrigin(o.In) {
 				manual[o.Path] = true
 			}
 		}
